@@ -20,6 +20,15 @@ extern "C" int __wrap_close(int fd) {
     return r;
 }
 
+// injected polling failures (-Wl,--wrap=epoll_wait): the next epoll_wait call of the library fails with the armed errno value (C03.5)
+#include <sys/epoll.h>
+int g_inject_poll_errno = 0; long g_injected_poll_faults = 0;
+extern "C" int __real_epoll_wait(int epfd, struct epoll_event *events, int maxevents, int timeout);
+extern "C" int __wrap_epoll_wait(int epfd, struct epoll_event *events, int maxevents, int timeout) {
+    if (g_inject_poll_errno) { int e = g_inject_poll_errno; g_inject_poll_errno = 0; g_injected_poll_faults++; errno = e; return -1; }
+    return __real_epoll_wait(epfd, events, maxevents, timeout);
+}
+
 #include "exec_model.inc"
 #include "exec_cb.inc"
 #include "exec_ops.inc"
@@ -155,6 +164,7 @@ void Exec::probe(const char *where) {
 // (window measured from before the first call to after the last one: it can only over-estimate the true one)
 void Exec::tb_after_call(Inst *S, const Op &op, int r, double t0) {
     double t1 = now();
+    trace("  throttled call returned " + std::to_string(r));
     if (r == -EAGAIN) {
         cls.insert("tb-refused"); S->tb_refused++; last_eagain_step = step;
         // recovery: a module that stayed RUNNING in a looping context and whose refill timer had time to fire and be dispatched must be able to act again
@@ -384,15 +394,16 @@ void Exec::run_blocking_loop(const Op &op, size_t next_op) {
     loop_next_op = next_op; loop_final_code = (int)(op.a & 0xff);
     in_loop = true; in_dispatch = true; loop_quit_pending = false; loop_started_pending = true;
     ctx.looping = true; ctx.quit = false; ctx.quit_code = 0; ctx.epoch++;
+    tick_rearm(now());
     regdereg_in_pass = true;
     trace("loop begin");
     errno = 0;
     int ret = m_ctx_loop();
     in_loop = false; in_dispatch = false;
     trace("loop -> " + std::to_string(ret));
-    ctx.looping = false;
     observe_pre();
-    reconcile_unobserved(false);
+    reconcile_unobserved(true); // modules without callbacks that the loop started after the driver's last look
+    ctx.looping = false;
     if (!ok()) return;
     if (loop_started_pending) { loop_started_pending = false; notify(M_PS_CTX_STARTED, nullptr, false); }
     if (!ctx.quit) fail("C03.3", "m_ctx_loop returned " + std::to_string(ret) + " although no module requested quit and the driver module is still RUNNING");
@@ -410,6 +421,8 @@ void Exec::run_blocking_loop(const Op &op, size_t next_op) {
         observe_pre();
         if (r != 0) fail("C01.1", "deregistering the driver module returned " + std::to_string(r));
         driver->h = nullptr;
+        // the driver may have been the last module of a non-persistent context: an idle context is released with its last module
+        if (ctx.exists && ctx.registered == 0 && !(ctx.flags & M_CTX_PERSIST)) { ctx.exists = false; cls.insert("ctx-auto-release"); }
     }
     harness_closing = true; close(drv_fd); harness_closing = false; drv_fd = -1;
     driver = nullptr;
